@@ -1,0 +1,16 @@
+//go:build verif
+
+package parallel
+
+// Contracts for fvc (see /verif/DESIGN.md). Comment-only file.
+
+// HashIndex (hashstructure + base32 + truncation to 6 characters): ASSUMED to be a deterministic function of the
+// index's contents. It is NOT assumed injective (it is not: see known finding F2).
+//@ pure hashIdx(numSet bool, num Int, key string, m map[string]string) string
+//@ pure hashOf(index execution.ParallelIndex) string =
+//@     hashIdx(index.IndexNumber != nil, index.IndexNumber != nil ? *index.IndexNumber : 0, index.IndexKey, index.MatrixValues)
+
+//@ extern func HashIndex
+//@   params index
+//@   ensures result1 == nil ==> result0 == hashOf(index)
+//@   ensures result1 != nil ==> result0 == ""
